@@ -31,6 +31,9 @@ def seed_table():
         if r.get("caught"):
             fo = "; ".join(x.replace("failed obligation: ", "")[:170] for x in r.get("failed_obligations", [])[:1])
             verdict = "**caught** (exit 1): %s; %s" % (fo, "; ".join(r.get("native", [])[:1]))
+        elif r and r.get("exit") == 2:
+            verdict = ("not caught (exit 2, undecided): the unit covering the changed function could not finish on the changed code "
+                       "(tool limit: CBMC out of memory) -- no verdict, no alarm")
         elif r:
             verdict = "not caught (exit %s): the change is in code listed as undecided for this property" % r.get("exit")
         else:
